@@ -26,6 +26,10 @@ def optInnerOk : MT → Bool
   | .data => true
   | _ => false
 
+def isOptional : MT → Bool
+  | .optional _ => true
+  | _ => false
+
 def ML.isNil : ML → Bool
   | .nil => true
   | _ => false
@@ -37,7 +41,7 @@ def wfM : MT → Bool
   | .int32 none (some _) => false   -- `deserialize` of a `max` without `min` fails
   | .twString _ => false            -- no `decode_expr`
   | .optional t => optInnerOk t
-  | .array _ t => wfM t && !greedy t
+  | .array _ t => wfM t && !greedy t && !isOptional t
   | .object ms => wfMs ms
   | _ => true
 /-- … and a greedy member comes last. -/
@@ -115,6 +119,18 @@ def presentL : VL → Bool
   | .nil => true
   | .cons v vs => presentV v && presentL vs
 end
+
+def allNone : VL → Bool
+  | .nil => true
+  | .cons .none vs => allNone vs
+  | .cons _ _ => false
+
+/-- The optional members that are absent are the trailing ones: after an absent member every
+member is absent (what a decoder can produce, and what can be written back). -/
+def absentOk : VL → Bool
+  | .nil => true
+  | .cons .none vs => allNone vs
+  | .cons v vs => presentV v && absentOk vs
 
 /-- Every message / object description of a protocol is one the generator can emit. -/
 def wfProto (p : ProtoSpec) : Bool :=
